@@ -42,6 +42,7 @@ pub fn replay(doc: &J) -> i32 {
     let prop = doc["property"].as_str().unwrap_or("");
     match prop {
         "C06" | "C16" => crate::driver::replay::<ChainScenario>(doc),
+        "C13" if doc["batch"].as_str().unwrap_or("").starts_with("zarr_") => crate::driver::replay::<StoreScenario>(doc),
         "C10" | "C11" | "C12" | "C13" => crate::driver::replay::<crate::props_sched::SchedScenario>(doc),
         "C15" if doc["batch"].as_str().unwrap_or("").starts_with("sampler_") => crate::driver::replay::<crate::props_sched::SchedScenario>(doc),
         "C14" | "C15" => crate::driver::replay::<StoreScenario>(doc),
